@@ -53,7 +53,8 @@ console_type_t console_detect_type(void);
  * Initialize console worker
  * 
  * Creates worker thread that reads from stdin and enqueues completed lines.
- * Worker posts completion to async_runtime after each line.
+ * Worker posts completion to async_runtime after each line (data = number of bytes),
+ * and one with data = 0 when it has reached the end of the input.
  *
  * @param runtime Async runtime for posting completions
  * @param queue Message queue for console lines
